@@ -378,6 +378,74 @@ def torsion_case(which):
     return out
 
 
+class _Seq:
+    """a minimal collections.abc.Sequence that is neither list nor tuple"""
+
+    def __init__(self, items):
+        self._i = list(items)
+
+    def __len__(self):
+        return len(self._i)
+
+    def __getitem__(self, k):
+        return self._i[k]
+
+    def __iter__(self):
+        return iter(self._i)
+
+
+import collections  # noqa: E402
+import collections.abc  # noqa: E402
+
+collections.abc.Sequence.register(_Seq)
+CONTAINERS = [("list", list), ("tuple", tuple), ("deque", collections.deque), ("Sequence", _Seq)]
+
+
+def container_case(suite, ci):
+    """the key / message / signature collections given as other sequence types: same answers as for lists"""
+    name, mk = CONTAINERS[ci]
+    C = BL.suite_cls(suite)
+    sks = [0x1001, 0x2002, 0x3003]
+    pks = [MB.sk_to_pk(k) for k in sks]
+    msgs = [MSG[0], MSG[1], MSG[0] + b"!"]
+    sigs = [MB.sign(suite, k, m) for k, m in zip(sks, msgs)]
+    agg = MB.aggregate(sigs)
+    out = [("Aggregate(%s)" % name, ("ok", agg), BL.call(C.Aggregate, mk(sigs))),
+           ("AggregateVerify(%s, %s)" % (name, name), True, BL.verdict(C.AggregateVerify, mk(pks), mk(msgs), agg)),
+           ("AggregateVerify(%s, list): messages of signers 2 and 3 swapped" % name, False,
+            BL.verdict(C.AggregateVerify, mk(pks), [msgs[0], msgs[2], msgs[1]], agg)),
+           ("AggregateVerify(list, %s): one signer short" % name, False, BL.verdict(C.AggregateVerify, pks[:2], mk(msgs[:2]), agg))]
+    if suite == "pop":
+        same = [MB.sign("pop", k, MSG[0]) for k in sks]
+        out += [("FastAggregateVerify(%s)" % name, True, BL.verdict(C.FastAggregateVerify, mk(pks), MSG[0], MB.aggregate(same))),
+                ("FastAggregateVerify(%s): one key short" % name, False, BL.verdict(C.FastAggregateVerify, mk(pks[:2]), MSG[0], MB.aggregate(same))),
+                ("_AggregatePKs(%s)" % name, ("ok", MB.g1_bytes(BL.E1.mul(params.bls_g1(), sum(sks) % R_))), BL.call(C._AggregatePKs, mk(pks)))]
+    return out
+
+
+def task_containers(a, env):
+    r = R("sequence-types-of-the-collections")
+    for suite in a["suites"]:
+        for ci in range(len(CONTAINERS)):
+            for lbl, exp, got in container_case(suite, ci):
+                r.ev += 1
+                r.transitions += 1
+                r.dk.add((suite, lbl))
+                if exp != got:
+                    r.viol("C03:%s:container-type:%s" % (suite, lbl.split("(")[0]), ME + ":replay_containers",
+                           {"suite": suite, "ci": ci}, exp, got, note=lbl)
+    r.states = 1
+    r.sample({"collections": [n for n, _ in CONTAINERS]})
+    return r
+
+
+def replay_containers(a):
+    for lbl, exp, got in container_case(a["suite"], a["ci"]):
+        if exp != got:
+            return {"case": lbl, "expected": exp, "observed": got}
+    return None
+
+
 def task_torsion(a, env):
     r = R("FastAggregateVerify:cancelling-non-subgroup-keys")
     for which in ("T_3", "T_11", "cofactor-component"):
@@ -615,6 +683,8 @@ def run(ctx):
     nst += len(fstates)
     tasks.append(("refuse", {}))
     tasks.append(("torsion", {}))
+    for s_ in BL.SUITES:
+        tasks.append(("containers", {"suites": [s_]}))
     for i in range(0, 8 if q else 16, 2):
         tasks.append(("special", {"idx": [i, i + 1]}))
     sp = [(x, y) for x in BL.SUITES for y in BL.SUITES if x != y]
